@@ -6,7 +6,7 @@ from props import c03
 
 RULE = ("listed witnesses first; a marker stream (rule-based / redox base reactions with spectator molecules [H][H], OO, hydroperoxides, "
         "peracids and explicit-H spellings inserted at every position of either or both sides, so that the substrings '.[H]', '.[O]', "
-        "'.OO' occur inside given molecules); the corpus run and the generated run; rows given as dicts with their own id column (1-based, reversed, shuffled, sparse, textual ids); twins (mirror images, E/Z pairs, isotope-labelled and unlabelled) in one batch and in consecutive batches of one Balancer.  Every returned row is checked by an RDKit-only "
+        "'.OO' occur inside given molecules); the corpus run and the generated run; rows given as dicts with their own id column (1-based, reversed, shuffled, sparse, textual ids); twins (mirror images, E/Z pairs, isotope-labelled and unlabelled) in one batch and in consecutive batches of one Balancer; cached re-runs of the same rows in other orders.  Every returned row is checked by an RDKit-only "
         "oracle: multiset of canonical molecules of each given side is contained in the same side of the returned reaction; "
         "input_reaction is the input with maps cleared (same molecules per side, no ':n' left).  Every batch is replayed through "
         "Model/Pipeline.run inside Coq; the oracle hypothesis of C02_partial (clean_str of every merged SMILES appended by the MCS "
@@ -155,6 +155,21 @@ def run(ctx):
         b = pipe.run_api(t, batch_size=1)          # one Balancer, consecutive batches
         ctx.count("twins", "consecutive_batches")
         oracle(ctx, b)
+    # configurations: the cache switched on, the same rows submitted again in another order (what is served from the cache must still
+    # be the row of the reaction it is returned for)
+    import tempfile, shutil
+    from synrbl import Balancer
+    cdir = tempfile.mkdtemp(prefix="synrbl_c02_")
+    try:
+        base = ["CC(=O)Cl.CN>>CC(=O)NC", "CCBr.CN>>CCNC", "CC(=O)OC.O>>CC(=O)O", "CC(=O)C>>CC(O)C"]
+        for order in ([0, 1, 2, 3], [2, 0, 3, 1], [1, 2, 3, 0], [0, 1, 2, 3]):
+            ins = [base[i] for i in order]
+            rows = Balancer(n_jobs=1, cache=True, cache_dir=cdir).rebalance(list(ins), output_dict=True)
+            ctx.count("cached", "runs")
+            oracle(ctx, {"inputs": ins, "rows": [{"input_reaction": r.get("input_reaction"), "reaction": r.get("reaction"), "solved_by": r.get("solved_by")} for r in rows],
+                         "tables": {"pp": [], "impute": []}}, extra={"inputs": ins, "cache": "one cache directory, earlier runs held the same rows in other orders"})
+    finally:
+        shutil.rmtree(cdir, ignore_errors=True)
     # rows given as dicts that carry their own id column (1-based, reversed, shuffled, sparse, textual): what a stage writes
     # back by id or position must still land in the row it was computed from
     pool = ["CC(=O)Cl.CN>>CC(=O)NC", "CC(=O)C>>CC(O)C", "CCBr.CN>>CCNC", "CC(=O)OC.O>>CC(=O)O", "CC(=O)O.CCO>>CC(=O)OCC.O", "CCCOC(=O)C>>OC(=O)C",
